@@ -761,9 +761,11 @@ def to_hashable(  # noqa: C901, PLR0911, PLR0912
     # Handle pandas Series and DataFrames
     if "pandas" in sys.modules:
         if isinstance(obj, sys.modules["pandas"].Series):
-            return (m, tp, (obj.name, to_hashable(obj.to_dict(), fallback_to_pickle)))
+            positional = to_hashable([obj.index.tolist(), obj.tolist()], fallback_to_pickle)
+            return (m, tp, (obj.name, to_hashable(obj.to_dict(), fallback_to_pickle), positional))
         if isinstance(obj, sys.modules["pandas"].DataFrame):
-            return (m, tp, to_hashable(obj.to_dict("list"), fallback_to_pickle))
+            labels = to_hashable([obj.index.tolist(), obj.columns.tolist()], fallback_to_pickle)
+            return (m, tp, to_hashable(obj.to_dict("list"), fallback_to_pickle), labels)
 
     if fallback_to_pickle:
         try:
